@@ -51,6 +51,18 @@ CLAIMED = {
         "Machine-checked Lean 4 theorems over an executable model of release_git_object: for all target types, tagger/date presence and message absent/empty/arbitrary (names and taggers with newlines), an independent tag parser recovers object, type, tag, tagger line and message; equal manifests imply equal fields; the target-type table is regenerated from the live code and proved equal to content->blob, directory->tree, revision->commit, release->tag, snapshot->refs and injective. Differential check against the compiled model on every run.",
         NOTE,
     ),
+    "C06": (
+        "§6 C06",
+        "Lean 4 theorems over an executable model of Directory.from_disk (explicit-stack walk proved equal to the structural reader; listing-order independence at every depth; modes; symlinks; trailing slashes; nested lookup; ignore-empty = git write-tree spec) + correspondence on materialised trees with shuffled listings + git add -A/write-tree oracle",
+        "Machine-checked Lean 4 theorems over an executable model of reading a tree from disk (FsNode data type; the stack-based two-pass walk transcribed statement by statement and proved equal to a structural reader for every filter and limit): any permutation of any directory's listing at any depth gives the same (kind, id, mode) at every path; regular files are blobs with 100755 iff an execute bit, symlinks are 120000 blobs of their text and never followed, special files are empty contents, every directory incl. empty ones is a 40000 tree entry; trailing slashes are normalised away; the node at a nested path is the reading of that sub-tree; for trees without special files whose executables are owner-executable, ignoring empty directories gives git's `add -A && write-tree` id written as a separate specification. The correspondence materialises generated trees (non-UTF-8 names, names colliding in git order, sizes around the read block, fifos, dangling links) in a scratch area with PRNG-shuffled os.scandir and compares every node with the model, with ids computed independently from git's rules, with the command line, and with real git.",
+        NOTE + " OS semantics (lstat/readlink/scandir) are trusted; the model receives the tree as data.",
+    ),
+    "C13": (
+        "§6 C13",
+        "Lean 4 theorems: two-pass filtering = reading the physically pruned tree (named, empty, composed; any emptiness-only filter); export closed/unique/checked without assuming an injective hash; size limit changes status only + correspondence and pruned-copy oracle on materialised trees (glob patterns by oracle only)",
+        "Machine-checked Lean 4 theorems over the same model: for every filter that only looks at a directory's name and emptiness (all shipped filters and their conjunctions) reading with the filter equals reading the physically pruned tree, as whole outcomes (same error or same tree at every path), the top never being filtered; the exported objects are closed under reference, have pairwise distinct ids and pass their integrity checks, without assuming the hash injective; exported data is the file's bytes with sha1_git = H(blob); a file above the limit is exported as skipped with the same id and length and every directory id is unchanged; an over-long symlink raises. The correspondence runs the real reader with each filter and limit on generated trees and on physically pruned copies, compares per-node ids and the three exported lists with the model, and checks closure/uniqueness/check()/lazy data directly. Glob patterns (os.path/fnmatch) are outside the Lean model and decided by the pruned-copy oracle.",
+        NOTE + " No generated file matches a generated pattern (the statement only speaks of directories).",
+    ),
     "C07": (
         "§6 C07",
         "Lean 4 theorems stating the decision logic outright (id assignment, check iff, evolve, raw manifests) for a generic manifest function, instantiated with the seven model manifest functions + correspondence on digests + direct oracle (every field evolved, bit flips)",
